@@ -117,6 +117,8 @@ pub struct Chain {
     pub pending: BTreeMap<(Id, u8), u128>,
     pub withdraw_addr: Id,
     pub no_redelegate: BTreeSet<Id>,
+    /// validators whose undelegations the staking module refuses (unbonding-entry limit reached)
+    pub no_undelegate: BTreeSet<Id>,
     pub unbonding_time: u64,
     pub oracle_ok: bool,
     pub oracle_price: u128,
@@ -221,6 +223,7 @@ impl Chain {
             pending: BTreeMap::new(),
             withdraw_addr: HUB,
             no_redelegate: BTreeSet::new(),
+            no_undelegate: BTreeSet::new(),
             unbonding_time: 0,
             oracle_ok: true,
             oracle_price: D,
@@ -597,11 +600,9 @@ impl Chain {
                 Err(e) => {
                     // roll the sub-transaction back, keeping the diagnostics
                     let trace = std::mem::take(&mut self.trace);
-                    let effects = std::mem::take(&mut self.effects);
                     let fuel = self.fuel;
                     *self = snapshot;
                     self.trace = trace;
-                    self.effects = effects;
                     self.fuel = fuel;
                     if sub.reply_on == ReplyOn::Success {
                         return Err(e);
@@ -719,6 +720,9 @@ impl Chain {
                 let d = self.deleg_of(v);
                 if d < amt {
                     return Err("insufficient delegation".into());
+                }
+                if self.no_undelegate.contains(&v) {
+                    return Err("too many unbonding entries".into());
                 }
                 if d - amt == 0 {
                     self.deleg.remove(&v);
